@@ -37,7 +37,8 @@ CUTMODE = os.environ.get("XH_CUTMODE", "none")  # none | stale (symbolic index a
 CUT_KIND = os.environ.get("XH_CUT_KIND", "raise")  # raise: an Exception; die: a BaseException (as KeyboardInterrupt)
 DRY = os.environ.get("XH_DRY", "0") == "1"
 SCOPED = os.environ.get("XH_SCOPED", "1") == "1"
-TP = os.environ.get("XH_TP", "0") == "1"  # C14: pass a transform_physical callback that rewrites the plan
+TP = os.environ.get("XH_TP", "0") in ("1", "2")  # C14: pass a transform_physical callback that rewrites the plan
+TP_COPY = os.environ.get("XH_TP", "0") == "2"  # ... and returns a transformed COPY instead of working in place
 RPLAN = os.environ.get("XH_RPLAN", "scoped")  # render: which plan
 VERBOSE = os.environ.get("XH_VERBOSE", "1") == "1"
 
@@ -318,6 +319,8 @@ def output_spec(b, sh, kind):
     """The `output` argument: the shape's own node / None / a nested structure of nodes and constants."""
     if kind == "none":
         return None
+    if kind == "const":
+        return 7  # a plain constant: no symbolic node in the requested output
     if kind == "struct":
         last = b.nodes[sh.n - 1]
         first = b.nodes[sh.out if sh.out is not None else 0]
@@ -698,6 +701,8 @@ def c13_copy(op: int, i: int, j: int, on_copy: bool, dunder: bool) -> bool:
 def _marker_tp(world, seen):
     def tp(plan, node):
         seen.append(node)
+        if TP_COPY:
+            plan = plan.copy()  # a callback may return a new plan object: run must use what the callback RETURNS
         m = plan.call(W.mk_fn("marker", world), node) if node is not None else plan.call(W.mk_fn("marker", world))
         return plan, (m if node is not None else None)
 
